@@ -251,7 +251,8 @@ pub mod implementations {
                 bail!("vec_op +push operations require only a single item on the operating stack")
             }
 
-            let new_val = ctx.pop().unwrap();
+            // store the element itself, not a view into the container it was read from
+            let new_val = ctx.pop().unwrap().move_out_of_heap_primitive()?;
 
             let primitive_with_flags: PrimitiveFlagsPair = ctx
                 .load_local(&op_name[1..])
